@@ -6,7 +6,9 @@ Open Scope N_scope.
 Definition closes_now : bool := match search_closes_channels with Known b => b | Unrecognised _ => true end.
 Lemma C09_facts_ok :
   search_closes_channels = Known false /\ search_chans_buffered_per_worker = Known true /\
-  search_collector_shape = Known true /\ search_worker_one_message = Known true.
+  search_collector_shape = Known true /\ search_worker_one_message = Known true /\
+  (* both merges end with sort.Sort over everything received, then the cut to k *)
+  dataset_merge_sort_then_truncate = Known true.
 Proof. repeat split; reflexivity. Qed.
 
 (* fan-in, as the source has it now: for every number of workers, every assignment of results / errors to the workers
